@@ -32,9 +32,9 @@ func TestVerifC02Replicas(t *testing.T) {
 			Pebble:    rapid.IntRange(0, 2).Draw(rt, "pebble") == 0, Timing: kit.Thorough() && rapid.IntRange(0, 3).Draw(rt, "timing") == 0}
 		verifRunCase(rt, k, "C02", cfg, func(s *verifSim) {
 			s.enabledOnly(map[string]bool{"C02": true})
-			w := verifScriptWeights{commit: 12, retry: 3, failover: 5, reinstall: 3, crash: 2, restart: 3, isolate: 3, cut: 4, heal: 3, drop: 5, flush: 3, staleCommit: 1, cleanFailover: 2, pageCut: 3, divergentTail: 4, doubleFork: 3}
+			w := verifScriptWeights{commit: 12, retry: 3, failover: 5, reinstall: 3, crash: 2, restart: 3, isolate: 3, cut: 4, heal: 3, drop: 5, flush: 3, staleCommit: 1, cleanFailover: 2, pageCut: 3, divergentTail: 4, doubleFork: 3, rollingOutage: 7}
 			st := verifRunScript(rt, k, s, verifScriptOpts{prop: "C02", enabled: map[string]bool{"C02": true}, weights: w, steps: kit.Scale("C02STEPS", 30, 45), preSeed: verifPreSeed(),
-				outageBudget: rapid.SampledFrom([]int{0, 0, n - 1}).Draw(rt, "outageBudget")})
+				outageBudget: rapid.SampledFrom([]int{0, n - 1}).Draw(rt, "outageBudget")})
 			k.SetNonTrivial(st.nontrivialC02)
 			k.LabelIf(st.acks > 0, "≥1 acknowledged commit")
 			k.LabelIf(cfg.Pebble, "pebble stores")
